@@ -96,7 +96,7 @@ def main():
     if args.replay:
         r = json.loads(Path(args.replay).read_text())
         try:
-            msg = core.replay_case(module, r["subcheck"], r["case"])
+            msg = core.replay_isolated(module, r["subcheck"], r["case"])
         except Exception as e:
             print(f"HARNESS-ERROR replay: {e!r}", file=sys.stderr)
             return 2
